@@ -255,11 +255,15 @@ def prop_roundtrip(case):
     numeric_labels, na_label, numeric_exprs = prep["numeric_labels"], prep["na_label"], prep["numeric_exprs"]
     save_kwargs, load_kwargs = prep["save_kwargs"], prep["load_kwargs"]
 
+    from vlib import env
+
     current = original
     exact = True
     loaded = None
+    hostile = env.hostile_for(case)
     for k in range(1, int(case.get("cycles", 3)) + 1):
-        with tempfile.TemporaryDirectory(prefix="verif_c16_") as d:
+        # (a third of the cases: numpy print options / pandas display options of a user's session must not leak into the file)
+        with tempfile.TemporaryDirectory(prefix="verif_c16_") as d, env.hostile_environment(hostile):
             path = os.path.join(d, f"parameters_{k}.{fmt}")
             with expect_ok(f"{pfx}.save"):
                 save_parameters(current, path, **save_kwargs)
@@ -275,7 +279,7 @@ def prop_roundtrip(case):
         exact = exact and ex
         current = loaded
 
-    tags = [fmt, f"labels:{case.get('label_mode')}", f"expr:{case.get('expr_mode')}"]
+    tags = [fmt, f"labels:{case.get('label_mode')}", f"expr:{case.get('expr_mode')}"] + (["changed_print_and_display_options"] if hostile else [])
     nested = any("." in x for x in labels)
     any_numeric = any(numeric_looking(x) or any(part.isdigit() for part in x.split(".")) for x in labels)
     cols = {f: [p[f] for p in case["params"]] for f in ("minimum", "maximum", "standard_error", "vary", "non_negative")}
